@@ -113,6 +113,9 @@ func addGenesisVaults(w *World, doc *genesis.Document, st *staking.Genesis, add 
 		}
 		addr := vlt.Address()
 		bal := uint64(5000*(i+1)) + k.MinTransact
+		if i%2 == 1 {
+			bal = uint64(40*i) + k.MinTransact // a poor vault: its withdraw policy allows more than it holds
+		}
 		st.Ledger[addr] = &staking.Account{General: staking.GeneralAccount{
 			Balance: q(bal),
 			Hooks:   map[staking.HookKind]staking.HookDestination{staking.HookKindWithdraw: {Module: vault.ModuleName}},
@@ -365,8 +368,14 @@ func vaultAction(w *World, rr *core.Rand, op TxOp, v TxView, vlt *vault.Vault, v
 			addr = vs[rr.Intn(len(vs))].Address() // a vault may withdraw from a vault
 		}
 		limit := resolveAmount(op.Amt, &acct.General.Balance, 1)
-		if rr.Chance(1, 3) {
+		switch rr.Intn(6) {
+		case 0, 1:
 			limit = q(uint64(1 + rr.Intn(400)))
+		case 2, 3:
+			// More than the vault holds: the policy then allows withdrawals that the balance checks
+			// refuse afterwards.
+			_ = limit.Add(&acct.General.Balance)
+			_ = limit.Add(quantity.NewFromUint64(uint64(50 + rr.Intn(1000))))
 		}
 		return vault.Action{UpdateWithdrawPolicy: &vault.ActionUpdateWithdrawPolicy{
 			Address: addr,
@@ -529,10 +538,42 @@ func buildVaultWithdraw(w *World, op TxOp, v TxView, def signature.Signer, fee *
 		}
 	}
 	if len(withPolicy) > 0 && rr.Chance(5, 6) {
+		// Prefer a signer whose remaining limit exceeds what the vault can pay (see below).
 		i := withPolicy[rr.Intn(len(withPolicy))]
+		for _, c := range withPolicy {
+			if rem := vaultRemaining(states[w.Addr(c)]); rr.Chance(1, 2) && rem.Cmp(&bal) > 0 {
+				i = c
+				break
+			}
+		}
 		signer = w.Signer(i)
+		as := states[w.Addr(i)]
 		if !rr.Chance(1, 5) {
-			base = states[w.Addr(i)].WithdrawPolicy.LimitAmount.Clone()
+			base = as.WithdrawPolicy.LimitAmount.Clone()
+		}
+		// A withdrawal that the policy ALLOWS (the hook authorises it and updates the per-address
+		// accounting) but that fails afterwards in staking: more than the vault holds, or an amount
+		// that would leave the vault below the minimum transact balance.
+		if rr.Chance(2, 5) {
+			rem := vaultRemaining(as)
+			minTransact := v.StakingParams().MinTransactBalance.ToBigInt().Uint64()
+			var cands []quantity.Quantity
+			over := bal.Clone()
+			_ = over.Add(quantity.NewFromUint64(1 + uint64(rr.Intn(3))))
+			cands = append(cands, *over) // vault balance + 1..3
+			if minTransact > 0 {
+				cands = append(cands, *bal.Clone()) // everything: the vault ends at zero, below the minimum
+				if low := bal.Clone(); low.Sub(quantity.NewFromUint64(minTransact-1)) == nil && !low.IsZero() {
+					cands = append(cands, *low) // leaves minimum-1
+				}
+			}
+			start := rr.Intn(len(cands))
+			for j := range cands {
+				c := cands[(start+j)%len(cands)]
+				if c.Cmp(rem) <= 0 && c.Cmp(quantity.NewFromUint64(minXfer)) >= 0 && !c.IsZero() {
+					return staking.NewWithdrawTx(c17Nonce(v, op, signer), fee, &staking.Withdraw{From: vaddr, Amount: c}), signer, nil
+				}
+			}
 		}
 	}
 	var amt quantity.Quantity
@@ -545,6 +586,16 @@ func buildVaultWithdraw(w *World, op TxOp, v TxView, def signature.Signer, fee *
 		amt = resolveAmount(op.Amt, base, minXfer)
 	}
 	return staking.NewWithdrawTx(c17Nonce(v, op, signer), fee, &staking.Withdraw{From: vaddr, Amount: amt}), signer, nil
+}
+
+// vaultRemaining is what the address may still withdraw in its current accounting interval
+// (assuming the interval has not rolled over).
+func vaultRemaining(as *vault.AddressState) *quantity.Quantity {
+	rem := as.WithdrawPolicy.LimitAmount.Clone()
+	if rem.Sub(&as.CurrentAmount) != nil {
+		return quantity.NewQuantity()
+	}
+	return rem
 }
 
 // appjunkMetaInPool makes the "appjunk" kind also produce client-signed consensus.Meta
@@ -745,7 +796,11 @@ func (o *vaultProbe) BeforeTx(*Sim, *Replica, int, []byte, mkvs.KeyValueTree) {}
 // took) only the signer's account (fee, nonce), the vault's descriptor (action nonce) and the
 // vault's pending-action record may differ.
 func (o *vaultProbe) AfterTx(s *Sim, r *Replica, idx int, raw []byte, st mkvs.KeyValueTree, res abcitypes.ResponseDeliverTx) {
-	if o.viol != nil || res.Code != 0 {
+	if o.viol != nil {
+		return
+	}
+	if res.Code != 0 {
+		vaultProbeWithdraw(s, raw, res)
 		return
 	}
 	executed := vaultExecuted(res.Events)
@@ -802,5 +857,36 @@ func (o *vaultProbe) AfterTx(s *Sim, r *Replica, idx int, raw []byte, st mkvs.Ke
 	}
 	if len(extra) > 0 {
 		o.viol = c08Viol("failed-vault-action-changed-state", fmt.Sprintf("height %d tx %d: vault.AuthorizeAction by %s on vault %s (action nonce %d) succeeded and executed the action, whose execution FAILED with %s; besides the signer's account, the vault descriptor and the pending-action record, %d more state records changed, e.g. keys %v", s.Height+1, idx, signerAddr, body.Vault, body.Nonce, failed, len(extra), extra[:min(3, len(extra))]))
+	}
+}
+
+// vaultProbeWithdraw (reach probe, C08 observer): a staking.Withdraw from an active vault that the
+// vault's withdraw policy allowed according to the state before the transaction (so the account
+// hook authorised it and updated the per-address accounting) and that failed afterwards on the
+// balance checks.
+func vaultProbeWithdraw(s *Sim, raw []byte, res abcitypes.ResponseDeliverTx) {
+	if res.Codespace != staking.ModuleName || (res.Code != 3 && res.Code != 10) { // insufficient balance, balance too low
+		return
+	}
+	before := vaultC08Before(s)
+	stx, tx := envelopeSigner(raw)
+	if before == nil || stx == nil || tx == nil || tx.Method != staking.MethodWithdraw {
+		return
+	}
+	var body staking.Withdraw
+	if cbor.Unmarshal(tx.Body, &body) != nil {
+		return
+	}
+	to := staking.NewAddress(stx.Signature.PublicKey)
+	var vlt vault.Vault
+	var as vault.AddressState
+	if rawV, ok := before[string(append([]byte{0x30}, body.From[:]...))]; !ok || cbor.Unmarshal(rawV, &vlt) != nil || !vlt.IsActive() {
+		return
+	}
+	if rawS, ok := before[string(append(append([]byte{0x31}, body.From[:]...), to[:]...))]; !ok || cbor.Unmarshal(rawS, &as) != nil {
+		return
+	}
+	if as.AuthorizeWithdrawal(s.Height+1, &body.Amount) {
+		s.St.Inc("probe.vault.withdraw_allowed_by_policy_failed_later")
 	}
 }
